@@ -38,6 +38,26 @@ impl Scratch {
     }
 }
 
+/// A scratch directory on a file system other than the one scratch directories normally live on
+/// (renames between the two fail with EXDEV), if this machine has one that is writable.
+pub fn scratch_on_another_mount(tag: &str) -> Option<Scratch> {
+    let home = fs::metadata(scratch_base()).ok()?.dev();
+    for cand in ["/dev/shm", "/run/shm", "/var/tmp", "/run"] {
+        let p = Path::new(cand);
+        match fs::metadata(p) {
+            Ok(m) if m.is_dir() && m.dev() != home => {}
+            _ => continue,
+        }
+        let n = COUNTER.fetch_add(1, Ordering::Relaxed);
+        let path = p.join(format!("l4v-{}-{}-{}", std::process::id(), tag, n));
+        let _ = fs::remove_dir_all(&path);
+        if fs::create_dir_all(&path).is_ok() {
+            return Some(Scratch { path });
+        }
+    }
+    None
+}
+
 impl Drop for Scratch {
     fn drop(&mut self) {
         let _ = fs::remove_dir_all(&self.path);
